@@ -1171,6 +1171,9 @@ class Sequence:
         #If there are no charged residues
         elif(self.FCR() == 0):
             self.dmax = 0
+            if returnSeqDeltaMax:
+                # every arrangement has delta = 0 = dmax, so the sequence itself attains it
+                self.seqDeltaMax = self.seq
 
         #################################################################
         # FIRST computational trick - if only positive or negative
